@@ -2040,4 +2040,4 @@ Q(name="e2_init_0rtt_scrubs_params", props=["C04", "C14"], func=r"connection/mod
   pure=[r"is_client$"], allowed_panics=r".",
   functions=["Connection::init_0rtt"], pre=lambda c: "true", post=i0_post,
   bounds="every remembered parameter set: what is installed for the 0-RTT phase has no stateless reset token, no initial / original / retry connection IDs and no preferred address - a datagram ending in the previous connection's reset token cannot end the new one, and CID authentication starts from scratch",
-  replay=None)
+  replay=("conn_init_0rtt_native", lambda m: [dict(x=0)]))
